@@ -40,3 +40,78 @@ package security
 //@   prop C16
 //@   ensures forall i int :: 0 <= i && i < len(result) ==> result[i] != nil
 //@   modifies none
+
+// ---------------------------------------------------------------------------
+// C14 / C16: client and ACL registries are written through to the files they are loaded from at start-up,
+// and each file receives the registry it is named after
+
+//@ spec clientsPath(loc string) string = loc + "/" + "clients.json"
+//@ spec aclsPath(loc string) string = loc + "/" + "acls.json"
+
+//@ assumed (*ServiceCore).GetClients
+//@   pure
+//@   ensures foreign(result) || result != nil
+//@ assumed (*ServiceCore).GetAllAccessControls
+//@   pure
+//@ assumed (*sync.Map).Delete
+//@   pure
+//@ assumed (*sync.Map).Store
+//@   pure
+//@ assumed (*sync.Mutex).Lock
+//@   pure
+//@ assumed (*sync.Mutex).Unlock
+//@   pure
+
+//@ unit (*ServiceCore).SetClientAccessControls
+//@   prop C14 C16
+//@   ghost payloadG int = 0
+//@   ghost jsonG int = 0
+//@   requires serviceCore != nil
+//@   at call GetAllAccessControls#1
+//@     ghost payloadG := $result
+//@   at call Marshal#1 before
+//@     assert [acl-file-receives-the-acl-registry] ifacePtr(v) == payloadG
+//@   at call Marshal#1
+//@     ghost jsonG := arrOf($result0)
+//@   at call WriteFile#1 before
+//@     assert [acl-registry-written-to-the-file-it-is-loaded-from] filename == aclsPath(serviceCore.Location) && arrOf(data) == jsonG
+
+//@ unit (*ServiceCore).DeleteClientAccessControls
+//@   prop C14 C16
+//@   ghost payloadG int = 0
+//@   ghost jsonG int = 0
+//@   requires serviceCore != nil
+//@   at call GetAllAccessControls#1
+//@     ghost payloadG := $result
+//@   at call Marshal#1 before
+//@     assert [acl-file-receives-the-acl-registry] ifacePtr(v) == payloadG
+//@   at call Marshal#1
+//@     ghost jsonG := arrOf($result0)
+//@   at call WriteFile#1 before
+//@     assert [acl-registry-written-to-the-file-it-is-loaded-from] filename == aclsPath(serviceCore.Location) && arrOf(data) == jsonG
+
+//@ unit (*ServiceCore).RegisterClient
+//@   prop C14 C16
+//@   ghost payloadG int = 0
+//@   ghost jsonG int = 0
+//@   requires serviceCore != nil && clientInfo != nil
+//@   at call GetClients#1
+//@     ghost payloadG := $result
+//@   at call Marshal#1 before
+//@     assert [client-file-receives-the-client-registry] ifacePtr(v) == payloadG
+//@   at call Marshal#1
+//@     ghost jsonG := arrOf($result0)
+//@   at call WriteFile#1 before
+//@     assert [client-registry-written-to-the-file-it-is-loaded-from] filename == clientsPath(serviceCore.Location) && arrOf(data) == jsonG
+
+//@ unit (*ServiceCore).loadClients
+//@   prop C14 C16
+//@   requires serviceCore != nil
+//@   at call ReadFile#1 before
+//@     assert [client-registry-loaded-from-the-file-it-is-written-to] filename == clientsPath(serviceCore.Location)
+
+//@ unit (*ServiceCore).loadAcls
+//@   prop C14 C16
+//@   requires serviceCore != nil
+//@   at call ReadFile#1 before
+//@     assert [acl-registry-loaded-from-the-file-it-is-written-to] filename == aclsPath(serviceCore.Location)
